@@ -14,7 +14,7 @@ Proof.
   destruct (match assoc _ topo with Some sf => sf | None => None end) as [sf|]; [|left; eauto].
   destruct (mem_host sf path); [left; eauto|].
   match goal with |- context [if ?c then Ret sf else _] => destruct c end; [left; eauto|].
-  destruct (assoc sf (re_state env)) as [cand|]; [|right; eauto].
+  destruct (assoc sf (re_state env)) as [cand|]; [|left; eauto].
   match goal with |- context [if ?c then Ret sf else _] => destruct c end; [left; eauto|]. apply IH.
 Qed.
 
@@ -30,7 +30,7 @@ Proof.
     assert (sf <> self).
     { intros ->. apply not_true_iff_false in Em. apply Em. apply mem_host_In. exact Hin. }
     match type of H with context [if ?c then Ret sf else _] => destruct c end; [inversion H; subst; auto|].
-    destruct (assoc sf (re_state env)) as [cand|]; [|discriminate].
+    destruct (assoc sf (re_state env)) as [cand|]; [|inversion H; subst; auto].
     match type of H with context [if ?c then Ret sf else _] => destruct c end; [inversion H; subst; auto|].
     apply (IH (sf :: path) r); [right; exact Hin|exact Hm|exact H].
 Qed.
